@@ -66,6 +66,7 @@ type c12NatsEnv struct {
 	pf      *frugal.FProtocolFactory
 	srv     *c12Server
 	client  *frugal.FStandardClient
+	tr      frugal.FTransport
 	tap     *c12Tap
 	subject string
 	// publisher side
@@ -78,6 +79,16 @@ var (
 	c12NatsMu   sync.Mutex
 	c12NatsEnvs = map[string]*c12NatsEnv{}
 )
+
+var c12NatsGen int
+
+// c12NatsReset drops the environment of a protocol (its transport is left in a bad state by a
+// defect under test); the next case builds a fresh one on a new subject.
+func c12NatsReset(proto string) {
+	c12NatsMu.Lock()
+	delete(c12NatsEnvs, proto)
+	c12NatsMu.Unlock()
+}
 
 func c12NatsConn(url string) (*nats.Conn, error) {
 	return nats.Connect(url, nats.MaxReconnects(-1))
@@ -94,7 +105,8 @@ func c12Nats(proto string) (*c12NatsEnv, error) {
 		return nil, err
 	}
 	e := &c12NatsEnv{pf: frugal.NewFProtocolFactory(c12ProtoFactory(proto)), tap: &c12Tap{}, pubTap: &c12Tap{},
-		subject: "c12.svc." + proto, topic: "c12.topic." + proto}
+		subject: fmt.Sprintf("c12.svc.%s.%d", proto, c12NatsGen), topic: fmt.Sprintf("c12.topic.%s.%d", proto, c12NatsGen)}
+	c12NatsGen++
 	sconn, err := c12NatsConn(url)
 	if err != nil {
 		return nil, err
@@ -124,6 +136,7 @@ func c12Nats(proto string) (*c12NatsEnv, error) {
 	if err := tr.Open(); err != nil {
 		return nil, err
 	}
+	e.tr = tr
 	e.client = frugal.NewFStandardClient(frugal.NewFServiceProvider(tr, e.pf))
 	e.pubClient = frugal.NewFScopeClient(frugal.NewFScopeProvider(frugal.NewFNatsPublisherTransportFactory(cconn), nil, e.pf))
 	if err := e.pubClient.Open(); err != nil {
@@ -365,7 +378,7 @@ func c12E2ESend(p c12SendParams) (out c12SendOut, outcome string) {
 
 // ---------- generation ----------
 
-var c12E2EBig = []string{"string", "string", "binary", "blist", "bmap"}
+var c12E2EBig = []string{"string", "string", "binary", "blist", "bmap", "n2string", "n1binary", "n3string"}
 
 // c12E2EShape: small fields and one big part (first / middle / last) whose size is tuned so
 // that `framed(shape)` hits the target as closely as the encoding allows.
@@ -388,7 +401,7 @@ func c12E2EShape(r *Rng, target int, framed func(*c12Shape) int) (*c12Shape, str
 		at, where = nsmall, "last"
 	}
 	fs = append(fs[:at], append([]c12Field{{bk, 0}}, fs[at:]...)...)
-	sh := &c12Shape{fs}
+	sh := &c12Shape{fields: fs}
 	for k := 0; k < 5; k++ {
 		d := target - framed(sh)
 		if d == 0 {
@@ -428,6 +441,8 @@ func runC12E2E(r *Rng, n int) {
 			return func(sh *c12Shape) int { return 4 + c12Sum(c12RecordRequest(pf, c12Ctx(hdr), sh, t)) }
 		}
 		switch k := i % 8; {
+		case k == 7: // sequences on one NATS transport after an oversize failure
+			c12SeqCase(r, i, []string{"nats-t", "nats-t", "nats-c"})
 		case k < 4: // Call over NATS
 			p := c12CallParams{kind: "nats", proto: proto, qlimit: c12MiB, rlimit: c12MiB}
 			if r.Chance(12) {
@@ -492,7 +507,7 @@ func runC12E2E(r *Rng, n int) {
 					"protocol": proto, "args": p.args.String(), "result": p.result.String()})
 			}
 		default: // Oneway over NATS, Publish over NATS, Publish over STOMP
-			p := c12SendParams{kind: [...]string{"nats", "natspub", "stomp", "stomp"}[k-4], proto: proto}
+			p := c12SendParams{kind: [...]string{"nats", "natspub", "stomp"}[k-4], proto: proto}
 			if r.Chance(12) {
 				p.reqHdr = r.Pick(30, 300)
 			}
